@@ -274,3 +274,12 @@ mod test {
         insta::assert_snapshot!(result.unwrap_err().to_string(), @"unexpected value for field 'location': invalid value `oops` (must be `start` or `end`) at line 1 column 1");
     }
 }
+
+#[cfg(feature = "verif-hooks")]
+impl AppendTextComment {
+    /// Verification hook (read-only): the comment trivia built from the configured text,
+    /// exactly what `process` inserts.
+    pub fn verif_comment_text(&self) -> Result<String, String> {
+        self.text(Path::new("."))
+    }
+}
